@@ -49,30 +49,73 @@ func verifCounter(idm *MemIdm, field string) string {
 	return fmt.Sprint(f.Int())
 }
 
+// verifAt returns the entry of a by-id map at id and verifKeys its keys, whatever
+// integer type the map is keyed by (see verifCounter: the key type is an
+// implementation choice; an id that the key type cannot hold is not in the map).
+func verifAt(m any, id int) any {
+	mv := reflect.ValueOf(m)
+	k := reflect.ValueOf(id)
+
+	if !k.CanConvert(mv.Type().Key()) {
+		return nil
+	}
+
+	kc := k.Convert(mv.Type().Key())
+	if kc.CanInt() && kc.Int() != int64(id) || kc.CanUint() && (id < 0 || kc.Uint() != uint64(id)) {
+		return nil
+	}
+
+	v := mv.MapIndex(kc)
+	if !v.IsValid() {
+		return nil
+	}
+
+	return v.Interface()
+}
+
+func verifKeys(m any) []int {
+	var out []int
+
+	for _, k := range reflect.ValueOf(m).MapKeys() {
+		switch {
+		case k.CanInt():
+			out = append(out, int(k.Int()))
+		case k.CanUint():
+			out = append(out, int(k.Uint()))
+		}
+	}
+
+	sort.Ints(out)
+
+	return out
+}
+
 // VerifCheck checks that the by-name and by-id maps describe the same sets.
 func (idm *MemIdm) VerifCheck() []string {
 	var bad []string
 
 	for n, g := range idm.groupsByName {
-		if g.name != n || idm.groupsById[g.gid] != g {
+		if x, _ := verifAt(idm.groupsById, g.gid).(*MemGroup); g.name != n || x != g {
 			bad = append(bad, "group "+n+" missing or different in by-id map")
 		}
 	}
 
-	for i, g := range idm.groupsById {
-		if g.gid != i || idm.groupsByName[g.name] != g {
+	for _, i := range verifKeys(idm.groupsById) {
+		g, _ := verifAt(idm.groupsById, i).(*MemGroup)
+		if g == nil || g.gid != i || idm.groupsByName[g.name] != g {
 			bad = append(bad, fmt.Sprintf("gid %d missing or different in by-name map", i))
 		}
 	}
 
 	for n, u := range idm.usersByName {
-		if u.name != n || idm.usersById[u.uid] != u {
+		if x, _ := verifAt(idm.usersById, u.uid).(*MemUser); u.name != n || x != u {
 			bad = append(bad, "user "+n+" missing or different in by-id map")
 		}
 	}
 
-	for i, u := range idm.usersById {
-		if u.uid != i || idm.usersByName[u.name] != u {
+	for _, i := range verifKeys(idm.usersById) {
+		u, _ := verifAt(idm.usersById, i).(*MemUser)
+		if u == nil || u.uid != i || idm.usersByName[u.name] != u {
 			bad = append(bad, fmt.Sprintf("uid %d missing or different in by-name map", i))
 		}
 	}
